@@ -151,7 +151,7 @@ def expr(draw, ty, depth, F):
         return draw(LIT[ty](F))
     d = depth - 1
     if ty == "Int":
-        opts = ["arith", "arith"]
+        opts = ["arith", "arith", "const-arith"]
         if F.neg:
             opts.append("neg")
         for f in ("length", "indexof"):
@@ -165,6 +165,10 @@ def expr(draw, ty, depth, F):
         if c == "arith":
             ops = ["add", "sub", "mul", "div"] + (["mod"] if F.mod else [])
             return ("bin", draw(st.sampled_from(ops)), draw(expr("Int", d, F)), draw(expr("Int", d, F)))
+        if c == "const-arith":
+            # arithmetic over two literals (something a constant folder would touch)
+            ops = ["add", "sub", "mul", "div"] + (["mod"] if F.mod else [])
+            return ("bin", draw(st.sampled_from(ops)), draw(int_lits(F)), draw(int_lits(F)))
         if c == "neg":
             return ("un", "neg", draw(expr("Int", d, F)))
         if c == "length":
